@@ -62,6 +62,7 @@ type MarkdownWriter struct {
 	output    strings.Builder
 	imageNum  int
 	footnotes []string
+	inList    bool // 上一个输出的元素是列表项（列表结束时需要补一个空行）
 }
 
 // Write 生成Markdown内容
@@ -79,6 +80,7 @@ func (w *MarkdownWriter) Write() ([]byte, error) {
 			case *document.Paragraph:
 				err = w.writeParagraph(elem)
 			case *document.Table:
+				w.endList()
 				err = w.writeTable(elem)
 			}
 			if err != nil {
@@ -91,6 +93,8 @@ func (w *MarkdownWriter) Write() ([]byte, error) {
 			}
 		}
 	}
+
+	w.endList()
 
 	// 添加脚注
 	if w.opts.PreserveFootnotes && len(w.footnotes) > 0 {
@@ -116,17 +120,32 @@ func (w *MarkdownWriter) writeParagraph(para *document.Paragraph) error {
 	// 检查段落样式
 	style := w.getParagraphStyle(para)
 
+	isHeading := strings.HasPrefix(style, "Heading")
+	isList := !isHeading && style != "Quote" && style != "CodeBlock" && w.isListParagraph(para)
+	if !isList {
+		// 列表之后的内容必须用空行与列表分开，否则会被解析为最后一个列表项的延续
+		w.endList()
+	}
+
 	switch {
-	case strings.HasPrefix(style, "Heading"):
+	case isHeading:
 		return w.writeHeading(para, style)
 	case style == "Quote":
 		return w.writeQuote(para)
 	case style == "CodeBlock":
 		return w.writeCodeBlock(para)
-	case w.isListParagraph(para):
+	case isList:
 		return w.writeListItem(para)
 	default:
 		return w.writeNormalParagraph(para)
+	}
+}
+
+// endList 在列表结束时输出一个空行
+func (w *MarkdownWriter) endList() {
+	if w.inList {
+		w.output.WriteString("\n")
+		w.inList = false
 	}
 }
 
@@ -137,8 +156,9 @@ func (w *MarkdownWriter) writeHeading(para *document.Paragraph, style string) er
 		level = 6
 	}
 
-	text := w.extractParagraphText(para)
-	if strings.TrimSpace(text) == "" {
+	// 标题首尾的空白在Markdown中不保留
+	text := strings.TrimSpace(w.extractParagraphText(para))
+	if text == "" {
 		return nil
 	}
 
@@ -167,7 +187,7 @@ func (w *MarkdownWriter) writeQuote(para *document.Paragraph) error {
 
 	lines := strings.Split(text, "\n")
 	for _, line := range lines {
-		w.output.WriteString("> " + line + "\n")
+		w.output.WriteString("> " + escapeBlockStart(strings.Trim(line, " ")) + "\n")
 	}
 	w.output.WriteString("\n")
 
@@ -176,7 +196,12 @@ func (w *MarkdownWriter) writeQuote(para *document.Paragraph) error {
 
 // writeCodeBlock 写入代码块
 func (w *MarkdownWriter) writeCodeBlock(para *document.Paragraph) error {
-	text := w.extractParagraphText(para)
+	// 代码行原样输出：不加格式标记，也不转义
+	var raw strings.Builder
+	for _, run := range para.Runs {
+		raw.WriteString(run.Text.Content)
+	}
+	text := raw.String()
 	if strings.TrimSpace(text) == "" {
 		return nil
 	}
@@ -202,7 +227,8 @@ func (w *MarkdownWriter) writeListItem(para *document.Paragraph) error {
 		marker = "1."
 	}
 
-	w.output.WriteString(marker + " " + text + "\n")
+	w.output.WriteString(marker + " " + escapeBlockStart(strings.Trim(text, " ")) + "\n")
+	w.inList = true
 
 	return nil
 }
@@ -211,9 +237,11 @@ func (w *MarkdownWriter) writeListItem(para *document.Paragraph) error {
 func (w *MarkdownWriter) writeNormalParagraph(para *document.Paragraph) error {
 	text := w.extractParagraphText(para)
 	if strings.TrimSpace(text) == "" {
-		w.output.WriteString("\n")
+		// 空段落不携带内容：不输出（多余的空行在再次导入时也不会保留）
 		return nil
 	}
+	// 段落首尾的空格在Markdown中不保留（行尾两个空格还会被解析为强制换行）
+	text = escapeBlockStart(strings.Trim(text, " "))
 
 	// 处理长行换行
 	if w.opts.WrapLongLines && len(text) > w.opts.MaxLineLength {
@@ -242,7 +270,8 @@ func (w *MarkdownWriter) writeTable(table *document.Table) error {
 		headerRow := rows[0]
 		w.output.WriteString("|")
 		for _, cell := range headerRow.Cells {
-			text := w.extractCellText(&cell)
+			// 表头单元格本来就以粗体显示：粗体不再用标记表示（否则再次导入、导出会多出 ** 标记）
+			text := w.extractHeaderCellText(&cell)
 			w.output.WriteString(" " + text + " |")
 		}
 		w.output.WriteString("\n")
@@ -309,12 +338,31 @@ func (w *MarkdownWriter) extractParagraphText(para *document.Paragraph) string {
 
 	var result strings.Builder
 
-	for _, run := range para.Runs {
-		text := w.formatRunText(&run)
-		result.WriteString(text)
+	// 格式相同的相邻Run合并后再加标记（"**a** **b**" 与 "**a b**" 显示相同，
+	// 合并后的写法在再次导入、导出时保持不变）
+	for i := 0; i < len(para.Runs); {
+		merged := para.Runs[i]
+		j := i + 1
+		for j < len(para.Runs) && w.sameMarkdownFormat(&para.Runs[i], &para.Runs[j]) {
+			merged.Text.Content += para.Runs[j].Text.Content
+			j++
+		}
+		result.WriteString(w.formatRunText(&merged))
+		i = j
 	}
 
 	return result.String()
+}
+
+// sameMarkdownFormat 判断两个Run在Markdown中的表示方式是否相同（粗体、斜体、删除线、代码）
+func (w *MarkdownWriter) sameMarkdownFormat(a, b *document.Run) bool {
+	flags := func(r *document.Run) [4]bool {
+		if r.Properties == nil {
+			return [4]bool{}
+		}
+		return [4]bool{r.Properties.Bold != nil, r.Properties.Italic != nil, r.Properties.Strike != nil, w.isCodeStyle(r.Properties)}
+	}
+	return flags(a) == flags(b)
 }
 
 // formatRunText 格式化文本运行
@@ -328,31 +376,108 @@ func (w *MarkdownWriter) formatRunText(run *document.Run) string {
 		return ""
 	}
 
+	// 代码样式：内容原样放在反引号中；内容本身含有反引号时使用更长的反引号串作为分隔符
+	if run.Properties != nil && w.isCodeStyle(run.Properties) {
+		longest, current := 0, 0
+		for _, r := range text {
+			if r == '`' {
+				current++
+				if current > longest {
+					longest = current
+				}
+			} else {
+				current = 0
+			}
+		}
+		fence := strings.Repeat("`", longest+1)
+		if longest > 0 && (strings.HasPrefix(text, "`") || strings.HasSuffix(text, "`")) {
+			return fence + " " + text + " " + fence
+		}
+		return fence + text + fence
+	}
+
+	// 首尾空白放在标记之外（"** a**" 不会被解析为粗体）
+	trimmed := strings.TrimSpace(text)
+	if trimmed == "" {
+		return text
+	}
+	start := strings.Index(text, trimmed)
+	leading, trailing := text[:start], text[start+len(trimmed):]
+	trimmed = escapeMarkdownText(trimmed)
+
 	// 检查格式属性
 	if run.Properties != nil {
 		// 检查粗体
 		if run.Properties.Bold != nil {
 			if run.Properties.Italic != nil {
-				text = "***" + text + "***" // 粗斜体
+				trimmed = "***" + trimmed + "***" // 粗斜体
 			} else {
-				text = "**" + text + "**" // 粗体
+				trimmed = "**" + trimmed + "**" // 粗体
 			}
 		} else if run.Properties.Italic != nil {
-			text = w.opts.EmphasisMarker + text + w.opts.EmphasisMarker // 斜体
+			trimmed = w.opts.EmphasisMarker + trimmed + w.opts.EmphasisMarker // 斜体
 		}
 
 		// 检查删除线
 		if run.Properties.Strike != nil {
-			text = "~~" + text + "~~" // 删除线
-		}
-
-		// 处理代码样式
-		if w.isCodeStyle(run.Properties) {
-			text = "`" + text + "`"
+			trimmed = "~~" + trimmed + "~~" // 删除线
 		}
 	}
 
+	return leading + trimmed + trailing
+}
+
+// escapeMarkdownText 用反斜杠转义文本中的Markdown标记字符，使文本在再次解析时保持原样
+func escapeMarkdownText(text string) string {
+	var b strings.Builder
+	for _, r := range text {
+		switch r {
+		case '\\', '*', '_', '`', '[', ']', '<', '>', '#', '|', '~', '&':
+			b.WriteByte('\\')
+		}
+		b.WriteRune(r)
+	}
+	return b.String()
+}
+
+// escapeBlockStart 转义会让段落开头被解析为列表、引用等块结构的字符
+func escapeBlockStart(text string) string {
+	if text == "" {
+		return text
+	}
+	switch text[0] {
+	case '-', '+', '>', '=':
+		return "\\" + text
+	}
+	i := 0
+	for i < len(text) && text[i] >= '0' && text[i] <= '9' {
+		i++
+	}
+	if i > 0 && i < len(text) && (text[i] == '.' || text[i] == ')') {
+		return text[:i] + "\\" + text[i:]
+	}
 	return text
+}
+
+// extractHeaderCellText 提取表头单元格文本，忽略粗体
+func (w *MarkdownWriter) extractHeaderCellText(cell *document.TableCell) string {
+	if cell == nil {
+		return ""
+	}
+	var result strings.Builder
+	for _, para := range cell.Paragraphs {
+		for _, run := range para.Runs {
+			plain := run
+			if run.Properties != nil && run.Properties.Bold != nil {
+				props := *run.Properties
+				props.Bold = nil
+				plain.Properties = &props
+			}
+			result.WriteString(w.formatRunText(&plain))
+		}
+	}
+	text := strings.ReplaceAll(result.String(), "\n", " ")
+	return strings.TrimSpace(text)
 }
 
 // extractCellText 提取单元格文本
@@ -433,13 +558,14 @@ func (w *MarkdownWriter) wrapText(text string, maxLength int) string {
 	}
 
 	var result strings.Builder
-	words := strings.Fields(text)
+	words := wrapWords(text)
 	var line strings.Builder
 
 	for _, word := range words {
 		if line.Len()+len(word)+1 > maxLength {
 			if line.Len() > 0 {
-				result.WriteString(line.String() + "\n")
+				// 新的一行不能以会被解析为列表、引用等的字符开头
+				result.WriteString(escapeBlockStart(line.String()) + "\n")
 				line.Reset()
 			}
 		}
@@ -450,8 +576,34 @@ func (w *MarkdownWriter) wrapText(text string, maxLength int) string {
 	}
 
 	if line.Len() > 0 {
-		result.WriteString(line.String())
+		result.WriteString(escapeBlockStart(line.String()))
 	}
 
 	return result.String()
+}
+
+// wrapWords 按空白把文本分成单词；反引号中的代码片段（可能含空格）作为一个整体，不在其中换行
+func wrapWords(text string) []string {
+	var words []string
+	var current strings.Builder
+	inCode := false
+	escaped := false
+	for _, r := range text {
+		if r == '`' && !escaped {
+			inCode = !inCode
+		}
+		escaped = r == '\\' && !escaped && !inCode
+		if !inCode && (r == ' ' || r == '\t' || r == '\n' || r == '\r') {
+			if current.Len() > 0 {
+				words = append(words, current.String())
+				current.Reset()
+			}
+			continue
+		}
+		current.WriteRune(r)
+	}
+	if current.Len() > 0 {
+		words = append(words, current.String())
+	}
+	return words
 }
